@@ -630,7 +630,7 @@ func (g *zgen) include(st *State, depth int, cur string) Item {
 	name := fmt.Sprintf("%s%d", fileNames[g.n(len(fileNames), "fn")], g.nfile)
 	// where the file lives, as seen from the including file: next to it, in a sub-directory, in
 	// the parent directory (if there is one), in a sibling directory, or named absolutely
-	dir := path.Dir(cur)
+	dir := path.Dir(strings.TrimLeft(path.Clean(cur), "/")) // "." = the root of the include FS: no "../" from there
 	switch k := g.n(10, "where"); {
 	case k < 3 || g.o.FlatIncludes:
 		it.File = name
@@ -672,6 +672,20 @@ func GenZone(t *rapid.T, o GenOpts) *Zone {
 	if !o.FlatIncludes && g.p(50, "topdir") {
 		// the top-level file lives in a directory of the include FS
 		z.FileName = []string{"zones/", "d1/d2/", "a/", "sub/"}[g.n(4, "topdirn")] + z.FileName
+	}
+	if !o.FlatIncludes && g.p(35, "topform") {
+		// the file argument is not in the clean, rootless form of an fs.FS path: absolute, with
+		// "./", "x/../" or "/./" in it. Relative $INCLUDEs are relative to its directory.
+		switch g.n(5, "topformk") {
+		case 0, 1:
+			z.FileName = "/" + z.FileName
+		case 2:
+			z.FileName = "./" + z.FileName
+		case 3:
+			z.FileName = "tmp/../" + z.FileName
+		default:
+			z.FileName = path.Dir(z.FileName) + "/./" + path.Base(z.FileName)
+		}
 	}
 	st := State{OwnerUnknown: true}
 	switch k := g.n(10, "orik"); {
